@@ -150,6 +150,19 @@ PROPS = {
                      "audience strings are transported hex-encoded byte by byte, so byte semantics are exact; net/url.Parse is trusted: the model takes its output (ok/scheme/host/path) as input and the harness re-derives it from the raw string on every execution, including replay"],
         partial=["flow confinement (no flow accepts an uncovered scope/audience; tokens never carry an ungranted one) is checked by the history correspondence and the C12 monitor clauses; Lean theorems for it exist per flow only for refresh (C05) and redeem (C02)"],
     ),
+    "C16": dict(
+        modules=["Fosite.Props.C16"],
+        drivers=[dict(name="hist", kind="hist")],
+        rule=HIST_RULE + "; device flows: device-authorize, user decision (none/accept/reject) applied by the consent application to the stored request, polling by the right / a wrong / an unauthenticated client, tampered codes, replay after success, time advance across the code lifetime; both store variants (the reference store deletes a used device code; the wrapper variant marks it and answers ErrInvalidatedDeviceCode, chosen per history)",
+        partial=["'device and user codes are unguessable and distinct' rests on rand_fresh (C06 mint theorems cover layout/entropy); 'stored only as signatures' is checked by the C20 taint scan",
+                 "the prescribed answers (authorization_pending / access_denied / expired_token / invalid_grant) are checked by the monitor and the correspondence; Lean theorems cover the safety core and at-most-once"],
+    ),
+    "C17": dict(
+        modules=["Fosite.Props.C17"],
+        drivers=[dict(name="hist", kind="hist")],
+        rule=HIST_RULE + "; PAR flows: push (authenticated / not, with credentials in the body, with a request_uri inside), use by the pushing / another client, twice, after expiry, with conflicting extra query parameters, unknown URIs, enforcement on/off",
+        partial=["request validation of the push (redirect URI, response types) is C13's model; 'pushed values authoritative' is proved on the request the handlers receive and observed end to end through the redirect_uri / PKCE binding of the resulting code"],
+    ),
     "C20": dict(
         modules=["Fosite.Props.C20"],
         drivers=[dict(name="render", kind="pure"), dict(name="hist", kind="hist")],
